@@ -186,7 +186,7 @@ PROPS = {
     },
     "C10": {
         "test": "TestC10",
-        "lean_modules": ["Gittuf.Props.C10"],
+        "lean_modules": ["Gittuf.Props.C10", "Gittuf.Props.C10b"],
         "n": {"quick": 64, "thorough": 960},
         "min_per_shard": 16,
         "rule": "layer (a), the path codec, only (kind \"paths\"; the verification layer is C10b): per case one commit on a real repository - "
